@@ -1,0 +1,5 @@
+//go:build !verif
+
+package layer4
+
+func verifHook(string, any) {}
